@@ -57,6 +57,8 @@ class SeqProp(PropCheck):
         return run, viols
 
     def coq_item(self, case, run):
+        if any(o["op"] == "config_slm" for o in case["ops"]):
+            return None  # oracle-only case (SLM mask: not in the Coq model)
         return seqcoq.case_terms(case, run)
 
     def cases_file(self, items):
@@ -84,6 +86,8 @@ class SeqProp(PropCheck):
             k = "ok" if t[0][0] == 0 else f"err{t[0][0]}"
             errs[k] = errs.get(k, 0) + 1
         acc["calls"] = acc.get("calls", 0) + len(case["ops"])
+        if any(o["op"] == "config_slm" for o in case["ops"]):
+            acc["oracle_only_cases_with_slm_mask"] = acc.get("oracle_only_cases_with_slm_mask", 0) + 1
         acc["max_history"] = max(acc.get("max_history", 0), len(case["ops"]))
         nch = len(run["trace"][-1][0])
         h = acc.setdefault("channels_per_case", {})
